@@ -384,7 +384,9 @@ fn run_lut<T: L>(toks: &[&str]) -> Option<String> {
                 }
             }
             // does one further call still yield an item?
-            let ok_flag = if exhausted { false } else { it.next().is_some() };
+            // does one further call still yield an item?  After the end every further call must
+            // say None again (seed C08-i: an exhausted iterator that restarts when polled)
+            let ok_flag = if exhausted { it.next().is_some() || it.next().is_some() || it.next().is_some() } else { it.next().is_some() };
             format!("ok {} {:x} {}", cnt, h, show_bool(ok_flag))
         }
         ("tohex", 3) => {
@@ -627,6 +629,9 @@ fn run_sop_ops(t: &[&str]) -> Option<String> {
             if t[3] == t[4] && (if t[1] == "and" { &a & &a } else { &a | &a }) != r1 {
                 return Some("ok forms-disagree".into());
             }
+            if r1.num_vars() != n {
+                return Some("ok wrong-num-vars".into());
+            }
             format!("ok {}", show_cubes(r1.cubes()))
         }
         ("sop", "not", 4) => {
@@ -635,6 +640,9 @@ fn run_sop_ops(t: &[&str]) -> Option<String> {
             let r2 = !a.clone();
             if r1 != r2 {
                 return Some("ok forms-disagree".into());
+            }
+            if r1.num_vars() != a.num_vars() {
+                return Some("ok wrong-num-vars".into());
             }
             format!("ok {}", show_cubes(r1.cubes()))
         }
@@ -691,6 +699,9 @@ fn run_sop_ops(t: &[&str]) -> Option<String> {
             if t[3] == t[4] && (&a ^ &a) != r1 {
                 return Some("ok forms-disagree".into());
             }
+            if r1.num_vars() != n {
+                return Some("ok wrong-num-vars".into());
+            }
             format!("ok {}", show_cubes(r1.cubes()))
         }
         ("esop", "not", 4) => {
@@ -699,6 +710,9 @@ fn run_sop_ops(t: &[&str]) -> Option<String> {
             let r2 = !a.clone();
             if r1 != r2 {
                 return Some("ok forms-disagree".into());
+            }
+            if r1.num_vars() != a.num_vars() {
+                return Some("ok wrong-num-vars".into());
             }
             format!("ok {}", show_cubes(r1.cubes()))
         }
@@ -737,6 +751,9 @@ fn run_sop_ops(t: &[&str]) -> Option<String> {
             }
             if t[3] == t[4] && (&a | &a) != r1 {
                 return Some("ok forms-disagree".into());
+            }
+            if r1.num_vars() != n {
+                return Some("ok wrong-num-vars".into());
             }
             format!("ok {}", show_ecubes(r1.cubes()))
         }
